@@ -38,6 +38,22 @@ def main():
     if r["violated"]:
         rep.mc_violation("C06_online", r)
 
+    # dense time: the operational models of the offline and the online monitor (DenseOff!OffCM, DenseOn!UpdateCM with the
+    # interface-aware predicate clause) denote Dense!SigC under the 5 semantics x all input/output assignments
+    import densemc
+    FD = [ax, axy, bi("and", ax, ay), bi("or", un("not", ax), axy), un("onceT", axy, 0, 1), bi("since", ax, ay), un("hist", bi("implies", ax, ay)),
+          un("histT", un("onceT", ay, 1, 1), 0, 2)]
+    FDs = FD if not quick else [FD[i] for i in sorted(random.Random(core.seed()).sample(range(len(FD)), 4))]
+    r = densemc.run_offline("C06_dense_off", FDs + [un("evT", axy, 0, 2), bi("until", ax, ay)], maxt=3, maxn=3, vals=(-2, 1, 3) if not quick else (-2, 3),
+                            sems=SEMS, ios=("input", "output"))
+    rep.add_mc("DenseOffMC under 5 semantics x input/output assignments: offline operational model denotes SigC", r)
+    if r["violated"]:
+        rep.mc_violation("C06_dense_off", r)
+    r = densemc.run_formulas("C06_dense_on", FDs, maxt=2 if quick else 3, maxn=3, vals=(-2, 3), sems=SEMS, ios=("input", "output"), workers=12)
+    rep.add_mc("DenseOnFMC under 5 semantics x input/output assignments x every per-variable schedule (NoErr Mono Agree)", r)
+    if r["violated"]:
+        rep.mc_violation("C06_dense_on", r)
+
     rng = random.Random(core.seed() * 7919 + 6)
     n = 2000 if quick else 30000
     cases = []
